@@ -8,6 +8,7 @@ import (
 
 	"verif/checks"
 	"verif/core"
+	"verif/corpus"
 )
 
 func main() {
@@ -42,6 +43,7 @@ func main() {
 	func() {
 		defer func() {
 			if r := recover(); r != nil {
+				corpus.Cleanup()
 				if ie, ok := r.(core.InfraError); ok {
 					fmt.Printf("INFRASTRUCTURE property=%s %s\n", id, ie.Msg)
 					os.Exit(core.ExitInconclusive)
@@ -51,6 +53,7 @@ func main() {
 		}()
 		fn(c)
 	}()
+	corpus.Cleanup()
 	os.Exit(c.Finish())
 }
 
